@@ -616,9 +616,12 @@ func (fr *Frame) execAppend(c *ssa.CallCommon, resT types.Type, cond string, st 
 	vc.fact(fmt.Sprintf("(= (len_%s %s) (+ %s %s))", srt, r, la, lb))
 	vc.fact(fmt.Sprintf("(= (nil_%s %s) (and (nil_%s %s) (= %s 0)))", srt, r, srt, at, lb))
 	// prefix, and both directions for the appended part (DESIGN 2.5)
-	vc.fact(fmt.Sprintf("(forall ((?i Int)) (! (=> (and (<= 0 ?i) (< ?i %s)) (= (select %s ?i) (select %s ?i))) :pattern ((select %s ?i))))", la, ra, sliceArr(srt, at), ra))
+	vc.fact(fmt.Sprintf("(forall ((?i Int)) (! (=> (and (<= 0 ?i) (< ?i %s)) (= (select %s ?i) (select %s ?i))) :pattern ((select %s ?i)) :pattern ((select %s ?i))))", la, ra, sliceArr(srt, at), ra, sliceArr(srt, at)))
 	vc.fact(fmt.Sprintf("(forall ((?i Int)) (! (=> (and (<= 0 ?i) (< ?i %s)) (= (select %s (+ %s ?i)) (select %s ?i))) :pattern ((select %s ?i))))", lb, ra, la, sliceArr(srt, bt), sliceArr(srt, bt)))
 	vc.fact(fmt.Sprintf("(forall ((?i Int)) (! (=> (and (<= %s ?i) (< ?i (+ %s %s))) (= (select %s ?i) (select %s (- ?i %s)))) :pattern ((select %s ?i))))", la, la, lb, ra, sliceArr(srt, bt), la, ra))
+	// ground instance for the first appended element: gives E-matching a witness term when the
+	// proof only knows "len(b) > 0"
+	vc.fact(fmt.Sprintf("(=> (> %s 0) (= (select %s %s) (select %s 0)))", lb, ra, la, sliceArr(srt, bt)))
 	_ = e
 	return Val{T: resT, Term: r}
 }
